@@ -573,6 +573,77 @@ Section KMeans.
       end
     end.
 
+  (* ---- the same run with the values the `coupe_verif` records of k_means.rs
+     export, in program order: after every assignment step the assignments and
+     the bounds (`kmeans_assign`, `kmeans_bounds`), after every influence
+     update the influences (`kmeans_influences`).  Most recent first.
+     (Proofs/KMeansTrace.v: the state component is the run proper.) *)
+  Inductive event :=
+  | EvAssign (asg : list N) (lbs ubs : list num)
+  | EvInfl (infl : list num).
+
+  Fixpoint balance_loop_ev (b : nat) (it : nat) (points : list vec) (weights : list num) (perm : list nat)
+                           (centers : list vec) (cids : list N) (dmbr : list num) (target : num)
+                           (st : state) (ev : list event) : res (state * list event) :=
+    match b with
+    | O => Ok (st, ev)
+    | S b' =>
+      let k := [it; b] in
+      r <- sweep points centers cids dmbr (st_infl st) (combine (combine perm (st_lbs st)) (st_ubs st)) ;;
+      let '(lbs1, ubs1, ws) := r in
+      let lbs1 := lbs1 ++ skipn (length lbs1) (st_lbs st) in
+      let ubs1 := ubs1 ++ skipn (length ubs1) (st_ubs st) in
+      asg <- apply_writes ws (st_asg st) ;;
+      let ev := EvAssign asg lbs1 ubs1 :: ev in
+      nw <- mapM (fun '(j, cid) => r_sum R (3 :: k ++ [j]) (select asg weights cid)) (indexed 0 cids) ;;
+      imb <- imbalance k nw ;;
+      if klt A imb (s_imbalance_tol cfg) then Ok (mkState asg (st_infl st) lbs1 ubs1, ev)
+      else
+        let infl := upd_zip A (new_influence target) (st_infl st) nw in
+        let ev := EvInfl infl :: ev in
+        ncs <- new_centers (6 :: k) points asg cids centers ;;
+        let dold := map2 (dist A) centers ncs in
+        lu <- relax_bounds (7 :: k) lbs1 ubs1 dold infl ;;
+        balance_loop_ev b' it points weights perm centers cids dmbr target (mkState asg infl (fst lu) (snd lu)) ev
+    end.
+
+  Definition assign_and_balance_ev (it : nat) (points : list vec) (weights : list num) (perm : list nat)
+                                   (centers : list vec) (cids : list N) (st : state) (ev : list event)
+    : res (state * list event) :=
+    obb <- obb_of [1; it] points ;;
+    dmbr <- mapM (fun '(c, infl) => d <- obb_distance obb c ;; Ok (k_mul A d infl))
+                 (combine centers (st_infl st)) ;;
+    let zipped := sort_by_dist (combine (combine centers cids) dmbr) in
+    let dmbr' := map snd zipped in
+    let centers' := map (fun z => fst (fst z)) zipped in
+    let cids' := map (fun z => snd (fst z)) zipped in
+    tw <- r_sum R [2; it] weights ;;
+    let target := k_div A tw (k_ofN A (N.of_nat (length centers'))) in
+    balance_loop_ev (s_max_balance_iter cfg) it points weights perm centers' cids' dmbr' target st ev.
+
+  Fixpoint kmeans_iter_ev (cur : nat) (points : list vec) (weights : list num) (perm : list nat)
+                          (centers : list vec) (cids : list N) (st : state) (ev : list event)
+    : res (state * list event) :=
+    r1 <- assign_and_balance_ev cur points weights perm centers cids st ev ;;
+    let '(st1, ev) := r1 in
+    ncs <- new_centers [8; cur] points (st_asg st1) cids centers ;;
+    let dmoved := map2 (dist A) centers ncs in
+    infl <- (if s_erode cfg then erode cur points (st_asg st1) (length centers) (st_infl st1) dmoved
+             else Ok (st_infl st1)) ;;
+    dm <- r_maxby R [10; cur] dmoved ;;
+    match dm with
+    | None => Panic 8
+    | Some delta_max =>
+      match cur with
+      | O => Ok (mkState (st_asg st1) infl (st_lbs st1) (st_ubs st1), ev)
+      | S cur' =>
+        if klt A delta_max (s_delta_threshold cfg) then Ok (mkState (st_asg st1) infl (st_lbs st1) (st_ubs st1), ev)
+        else
+          lu <- relax_bounds [11; cur] (st_lbs st1) (st_ubs st1) dmoved infl ;;
+          kmeans_iter_ev cur' points weights perm ncs cids (mkState (st_asg st1) infl (fst lu) (snd lu)) ev
+      end
+    end.
+
   (* fn balanced_k_means_with_initial_partition *)
   Definition kmeans_with_initial (num_partitions : N) (points : list vec) (weights : list num)
                                  (part : list N) : res (list N) :=
@@ -604,6 +675,19 @@ Section KMeans.
         r <- kmeans_iter_tr (s_max_iter cfg) points weights (seq 0 n) centers cids
                (mkState part (map (fun _ => k_one A) centers) (repeat (k_zero A) n) (repeat (k_fmax A) n)) [] ;;
         Ok (rev (snd r)).
+  (* KMeans::partition with its recorded events, oldest first *)
+  Definition kmeans_events (points : list vec) (weights : list num) (part : list N) : res (list N * list event) :=
+    let num_partitions := (1 + list_maxN part)%N in
+    if (num_partitions <? 2)%N then Ok (part, [])
+    else
+      let cids := center_ids part in
+      if negb (N.of_nat (length cids) =? num_partitions)%N then Panic 2
+      else
+        centers <- mapM (fun '(j, cid) => center [0; j] (select part points cid)) (indexed 0 cids) ;;
+        let n := length points in
+        r <- kmeans_iter_ev (s_max_iter cfg) points weights (seq 0 n) centers cids
+               (mkState part (map (fun _ => k_one A) centers) (repeat (k_zero A) n) (repeat (k_fmax A) n)) [] ;;
+        Ok (st_asg (fst r), rev (snd r)).
 End KMeans.
 
 (* the result of the call, from its trajectory *)
